@@ -300,3 +300,78 @@ OUTSIDE = ["NetCDF4 / CSV content round trips (netCDF4, pandas C code)", "real c
 STUBS = ["ModelFS / ModelFSSpec (copy, move, unlink)", "token handlers", "model executor (tasks run at submission)",
          "model compressor classes of C12 for transparent (de)compression"]
 ASSUMPTIONS = ["the target names of different source files are distinct (checked)"]
+
+
+# ---- a short history: write, overwrite, copy, move, delete --------------------------------------------------
+@harness("C11.history", cases=lambda tier: ["copy-then-delete-source", "move-back-and-forth", "overwrite-then-move"],
+         expect=lambda c: ["conserved-after-every-step"])
+def k_history(ctx):
+    """what exists after a *sequence* of operations: at every step the selected files (symbolic period)
+    and only they change place, contents follow their files, nothing is lost or duplicated"""
+    what = ctx.case
+    mfs = ModelFS(ctx, max_faults=0)
+    h1, h2 = TokenHandler(mfs, "h1"), TokenHandler(mfs, "h2")
+    a = make_fileset(ctx, "/a/{year}/{month}/{day}/{hour}{minute}_{sat}.dat", mfs, handler=h1, name="a", time_coverage="30 minutes")
+    b = make_fileset(ctx, "/b/{sat}/{year}{doy}{hour}{minute}.dat", mfs, handler=h2, name="b", time_coverage="30 minutes")
+    ex = ModelExecutor(ctx, horizon=0)
+    times = [datetime(2019, 12, 31, 23, 30), datetime(2020, 1, 1, 0, 0), datetime(2020, 2, 29, 12, 0)]
+    sats = ["A", "B", "A"]
+
+    def name_a(i):
+        t = times[i]
+        return "/a/%04d/%02d/%02d/%02d%02d_%s.dat" % (t.year, t.month, t.day, t.hour, t.minute, sats[i])
+
+    def name_b(i):
+        t = times[i]
+        return "/b/%s/%04d%03d%02d%02d.dat" % (sats[i], t.year, t.timetuple().tm_yday, t.hour, t.minute)
+    with sym_env(ctx, WIN), _env(ctx, mfs, ex):
+        for i, t in enumerate(times):
+            a[t, {"sat": sats[i]}] = "payload-%d" % i
+        content = {i: mfs.files[name_a(i)] for i in range(3)}
+        ctx.check("conserved-after-every-step", sorted(mfs.files) == sorted(name_a(i) for i in range(3)), detail=repr(sorted(mfs.files)))
+        start = ST.sym_datetime(ctx, "start", WIN, lo=datetime(2019, 12, 1), hi=datetime(2020, 4, 1))
+        end = ST.sym_datetime(ctx, "end", WIN, lo=datetime(2019, 12, 1), hi=datetime(2020, 4, 1))
+        ctx.assume(start < end)
+        sel = [_sel(ctx, (None, None, t, t + timedelta(minutes=30)), start, end) for t in times]
+        # the selection is decided once (fork) so that the expected state is concrete
+        sel = [bool(s) for s in sel]
+
+        def quiet(f, *args, **kw):
+            try:
+                return f(*args, **kw)
+            except F.NoFilesError:
+                return None
+        if what == "copy-then-delete-source":
+            quiet(a.move, b, copy=True, start=start, end=end, worker_type="thread")
+            exp = {name_a(i): content[i] for i in range(3)}
+            exp.update({name_b(i): content[i] for i in range(3) if sel[i]})
+            ctx.check("conserved-after-every-step", mfs.files == exp, detail="after copy: %r" % sorted(mfs.files))
+            quiet(a.delete, start=start, end=end, worker_type="thread")
+            exp = {name_a(i): content[i] for i in range(3) if not sel[i]}
+            exp.update({name_b(i): content[i] for i in range(3) if sel[i]})
+            ctx.check("conserved-after-every-step", mfs.files == exp, detail="after delete: %r" % sorted(mfs.files))
+        elif what == "move-back-and-forth":
+            quiet(a.move, b, start=start, end=end, worker_type="thread")
+            exp = {(name_b(i) if sel[i] else name_a(i)): content[i] for i in range(3)}
+            ctx.check("conserved-after-every-step", mfs.files == exp, detail="after move: %r" % sorted(mfs.files))
+            b.reset_cache()
+            quiet(b.move, a, worker_type="thread")               # everything that is in b goes back
+            exp = {name_a(i): content[i] for i in range(3)}
+            ctx.check("conserved-after-every-step", mfs.files == exp, detail="after moving back: %r" % sorted(mfs.files))
+        else:
+            a[times[1], {"sat": sats[1]}] = "payload-new"
+            content[1] = mfs.files[name_a(1)]
+            ctx.check("conserved-after-every-step", len(mfs.files) == 3 and content[1][1] == "payload-new")
+            quiet(a.move, b, convert=True, start=start, end=end, worker_type="thread")
+            exp = {}
+            for i in range(3):
+                if sel[i]:
+                    exp[name_b(i)] = ("written-by-h2", ("data", content[i], ()), ())
+                else:
+                    exp[name_a(i)] = content[i]
+            ctx.check("conserved-after-every-step", mfs.files == exp, detail="after converting move: %r" % mfs.files)
+
+
+PLAN["quick"]["harnesses"].append("C11.history")
+PLAN["thorough"]["harnesses"].append("C11.history")
+OUTSIDE[:] = [o for o in OUTSIDE if not o.startswith("arbitrary operation histories")] + ["operation histories longer than three steps"]
